@@ -5,13 +5,13 @@ def wit(fid):
     r = json.load(open(f"{W}/witness_{fid}.json"))
     return {"profile": r["profile"], "scenario": r["scenario"], "signature": r["signature"]}
 known = [
- ("F4", ["C03", "C04", "C07", "C08", "C09", "C10", "C15"], "Projection.commute moves a projection upstream of a Deduplication when backtracking (sql_leaf.transferred_to(it).without_duplicates().with_only_columns({a}, preferred_engine=sql) returns [1,2] instead of [1,1,2]); tests/test_projection.py::test_backtracking_apply pins this move, so it cannot be repaired without editing the suite"),
- ("F7", ["C08", "C02", "C11", "C05", "C17", "C09"], "S.sorted([b]).with_only_columns({a,c}).without_duplicates().with_only_columns({a}) is accepted, then to_executable() raises KeyError: b (outer Select keeps a sort on a column its DISTINCT subquery no longer provides); a repair has to decide between refusing at construction and changing semantics - not small"),
+ ("F4", ["C03", "C04"], "Projection.commute moves a projection upstream of a Deduplication when backtracking (sql_leaf.transferred_to(it).without_duplicates().with_only_columns({a}, preferred_engine=sql) returns [1,2] instead of [1,1,2]); tests/test_projection.py::test_backtracking_apply pins this move, so it cannot be repaired without editing the suite"),
+ ("F7", ["C08"], "S.sorted([b]).with_only_columns({a,c}).without_duplicates().with_only_columns({a}) is accepted, then to_executable() raises KeyError: b (outer Select keeps a sort on a column its DISTINCT subquery no longer provides); a repair has to decide between refusing at construction and changing semantics - not small"),
  ("F13", ["C17"], "S.with_calculated_column(x, e).with_only_columns({a}): the Select marker's skip_to is the Calculation relation, but its own Projection elided the Calculation from the target chain, so walking target never reaches skip_to (harmless for compilation; marker incoherent)"),
- ("F15", ["C08", "C02", "C03", "C06", "C07", "C09", "C11", "C16", "C17"], "a join whose operands read the same table (leaf.join(leaf)) compiles to FROM t JOIN t without aliases; SQLite: 'ambiguous column name' (needs automatic aliasing - not small)"),
- ("F16", ["C08", "C02", "C03", "C06", "C07", "C09", "C11", "C16", "C17"], "a chain whose operand is itself a chain compiles to a parenthesised compound SELECT, which SQLite rejects (near \"(\": syntax error); the parenthesised strings are pinned by tests/test_sql_engine.py::test_chains"),
- ("F19", ["C08", "C03", "C06", "C07", "C09", "C14", "C16", "C20", "C15", "C10"], "it_leaf.join(it_leaf2) is accepted by the factory; iteration.Engine.execute() then raises EngineError('Joins are not supported by the iteration engine') - a documented limitation, but an unsupported-node error after acceptance"),
- ("F25", ["C08", "C02", "C03", "C06", "C07", "C09", "C11", "C16", "C17"], "a.chain(b).sorted([<expression that is not a plain column>]) compiles to UNION ... ORDER BY c + c, which SQLite (and the SQL standard) rejects: ORDER BY terms of a compound SELECT must be result columns"),
+ ("F15", ["C08"], "a join whose operands read the same table (leaf.join(leaf)) compiles to FROM t JOIN t without aliases; SQLite: 'ambiguous column name' (needs automatic aliasing - not small)"),
+ ("F16", ["C08"], "a chain whose operand is itself a chain compiles to a parenthesised compound SELECT, which SQLite rejects (near \"(\": syntax error); the parenthesised strings are pinned by tests/test_sql_engine.py::test_chains"),
+ ("F19", ["C08"], "it_leaf.join(it_leaf2) is accepted by the factory; iteration.Engine.execute() then raises EngineError('Joins are not supported by the iteration engine') - a documented limitation, but an unsupported-node error after acceptance"),
+ ("F25", ["C08"], "a.chain(b).sorted([<expression that is not a plain column>]) compiles to UNION ... ORDER BY c + c, which SQLite (and the SQL standard) rejects: ORDER BY terms of a compound SELECT must be result columns"),
 ]
 fixed = [
  ("F1", "C09", "c6c6e2b", "hash(rel.sorted([...])) raised TypeError: unhashable type 'SortTerm'"),
@@ -28,6 +28,7 @@ fixed = [
  ("F21", "C02", "a5c07d1", "identity.join(rel, predicate) returned all rows of rel: predicate dropped when an operand is a join identity; also C03, C06"),
  ("F22", "C04", "e1e33f2", "Sort.commute moved a new sort upstream of an existing sort: final order decided by the old sort; also C03"),
  ("F23", "C04", "3fe3523", "PartialJoin.commute moved a join beneath a projection hiding a column that the fixed operand also has"),
+ ("F27", "C08", "149b8d5", "identity_in_sql.join(rel_in_iteration) accepted: Select marker around an iteration-engine relation; process() AssertionError in Select.reapply; also C20 (engine mismatch not rejected), C14"),
  ("F26", "C14", "8ebe476", "sql_rel.transferred_to(sql) returned a new Select around sql_rel (not the relation itself), burying an un-sliced sort; found through C08 (order-loss error raised only by process())"),
 ]
 out = {"findings": [], "fixed_lines": []}
